@@ -309,7 +309,11 @@ def native_samples(reg, rnd, n):
     pairs = [("atmelavr", "uno"), ("atmelmegaavr", "nano_every"), ("atmelavr", "nano_every"), ("esp32", "uno"),
              ("atmelavr", "UNO"), ("atmelmegaavr", "uno")]
     scripts = ["", "from Reduino.Actuators import Servo\ns = Servo(9)\ns.write(10)\n",
-               "from Reduino.Displays import LCD\nlcd = LCD(rs=12, en=11, d4=5, d5=4, d6=3, d7=2)\n"]
+               "from Reduino.Displays import LCD\nlcd = LCD(rs=12, en=11, d4=5, d5=4, d6=3, d7=2)\n",
+               # the script's own target(...) line names a port through a variable / another literal than the caller passes at run time
+               "from Reduino import target\nPORT = 'COM9'\ntarget(PORT)\nfrom Reduino.Actuators import Led\nled = Led(13)\nled.on()\n",
+               "from Reduino import target\ntarget('COM7', upload=False)\nfrom Reduino.Actuators import Led\nled = Led(13)\nled.on()\n",
+               "from Reduino import target\ntarget(port='COM1', platform='atmelavr', board='uno')\nx = 1\n"]
     for i in range(max(n, 40)):
         plat, board = rnd.choice(pairs)
         jobs.append({"id": f"t{i}", "file": INIT, "unit": "target",
